@@ -23,12 +23,19 @@ var (
 
 // vhCtx is a context whose cancellation the harness controls.
 type vhCtx struct {
-	done chan struct{}
-	err  error
+	done   chan struct{}
+	err    error
+	onDone func() // called the first time Done() is asked for
 }
 
 func (c *vhCtx) Deadline() (time.Time, bool) { return time.Time{}, false }
-func (c *vhCtx) Done() <-chan struct{}       { return c.done }
+func (c *vhCtx) Done() <-chan struct{} {
+	if f := c.onDone; f != nil {
+		c.onDone = nil
+		f()
+	}
+	return c.done
+}
 func (c *vhCtx) Err() error                  { return c.err }
 func (c *vhCtx) Value(any) any               { return nil }
 func (c *vhCtx) cancel() {
